@@ -1,4 +1,4 @@
-import KalignModel.Props.C15
+import KalignModel.Props.PipelineFile
 #print axioms Kalign.IO.fasta_shape
 #print axioms Kalign.IO.blocks_shape_clu
 #print axioms Kalign.IO.blocks_shape_msf
@@ -8,3 +8,4 @@ import KalignModel.Props.C15
 #print axioms Kalign.IO.msf_type
 #print axioms Kalign.IO.gcg_spec
 #print axioms Kalign.IO.sortLines_layout
+#print axioms Kalign.PipelineFile.kalignFile_output_shape
